@@ -1626,6 +1626,30 @@ func continueAfterO(ndb dbApi.NodeDB, p *plan, ck *ckpt, tag string, fresh bool)
 			}
 		}
 	}
+	// drain: every retained version but the latest is pruned, oldest first; the roots of the latest version must still read
+	// completely (whatever the interrupted operation left out - a link between roots, an index entry - shows when the
+	// versions it shares nodes with are gone). A refused Prune ends the drain without a verdict.
+	vers := sortedVersions(p.finEnd)
+	if n := len(vers); n > 1 {
+		latest := vers[n-1]
+		drained := true
+		for _, ver := range vers[:n-1] {
+			if ver < p.earlyEnd {
+				continue
+			}
+			if err := protect(func() error { return ndb.Prune(ver) }); err != nil {
+				drained = false
+				break
+			}
+		}
+		if drained {
+			for _, c := range p.finEnd[latest] {
+				if msg := deepCheck(ndb, c, p.Uni); msg != "" {
+					return nil, nil, viol(fmt.Sprintf("crash-%s-%s-drain-unreadable", b, k), "%s: after pruning every version below %d the finalized root %s: %s", tag, latest, c.key(), msg)
+				}
+			}
+		}
+	}
 	return afterO, afterSuffix, nil
 }
 
